@@ -70,6 +70,31 @@ def run(ctx, replay=None):
             nbad += 1
             if nbad <= 4:
                 ctx.broken.append(('correspondence:' + kind, '%s: impl=%s model=%s' % (op[:200], a[:200], m[:200])))
+    # search engine for reads outside the buffer that do not reach the guard page (e.g. a table indexed with a negative
+    # char): the same harness built with ASan+UBSan on the escape-heavy part of the stream
+    exa, msg = ctx.cc('h_enc_asan', CORE_SRCS, ['h_enc.c'], san='asan')
+    if exa is None:
+        ctx.broken.append(('obligation:build-asan', msg))
+    else:
+        hi = [bytes([0x25, a, b]) for a in (0x80, 0xc3, 0xfe, 0xff, 0x41, 0x34) for b in (0x80, 0xa9, 0xff, 0x7f, 0x41)]
+        aops = ['urldec ' + hexs(x + b'z') for x in hi] + ['query 61 38 ' + hexs(b'q=' + x) for x in hi]
+        aops += [o for o in ops if o.split()[0] in ('urldec', 'hexdec', 'b64dec')][-(1500 if quick else 12000):]
+        pos = 0
+        env = dict(os.environ, ASAN_OPTIONS='detect_leaks=0:abort_on_error=0', UBSAN_OPTIONS='print_stacktrace=1')
+        while pos < len(aops):
+            rc, o, er = ctx.run([exa], inp=('\n'.join(aops[pos:]) + '\n').encode(), timeout=900, env=env)
+            done = len(o.decode('latin1').splitlines())
+            ctx.cov['evaluations'] += done
+            ctx.count('asan-decode', done)
+            if rc == 0 or done >= len(aops) - pos:
+                break
+            bad = aops[pos + done]
+            txt = er.decode('latin1')
+            kindm = re.search(r'ERROR: AddressSanitizer: (\S+)|runtime error: ([^\n]*)', txt)
+            what = (kindm.group(1) or kindm.group(2)) if kindm else 'sanitizer-abort'
+            ctx.report('impl-vs-spec', {'op': bad.split()[0], 'observed': 'memory-error'}, '%s: %s reported by the sanitizer build' % (bad.split()[0], what),
+                       {'op': bad, 'report': txt[:2500]})
+            pos += done + 1
     ctx.sample({'op': ops[len(ops) // 3][:200], 'impl': il[len(ops) // 3][:200] if len(il) > len(ops) // 3 else ''})
     ctx.sample({'op': ops[-1][:200], 'impl': il[-1][:200] if il else ''})
     ctx.cov['correspondence_mismatches'] = nbad
